@@ -4,13 +4,15 @@
 (* not; read-until-close body; body over the limit), buffered and streaming mode, every interleaving of       *)
 (* Deliver(c, 1..3) / PeerEof / Close / Dial with the client steps.                                           *)
 EXTENDS H1Client
-CONSTANTS MaxX
+CONSTANTS MaxX,        \* exchanges per connection history
+          WithReqClose \* include exchanges whose REQUEST carried Connection: close
 
 Shapes == {[headEnd |-> 2, end |-> 2 + b, closeAfter |-> ca, reqClose |-> rc, untilClose |-> uc, big |-> bg] :
               b \in {0, 3}, ca \in BOOLEAN, rc \in BOOLEAN, uc \in BOOLEAN, bg \in BOOLEAN}
 \* a read-until-close body ends the connection; a request that carried close makes the peer close; only bodies
 \* can be too large
-Sane == {s \in Shapes : (s.untilClose => s.closeAfter /\ s.end > s.headEnd) /\ (s.reqClose => s.closeAfter) /\ (s.big => s.end > s.headEnd)}
+Sane == {s \in Shapes : (s.untilClose => s.closeAfter /\ s.end > s.headEnd) /\ (s.reqClose => s.closeAfter) /\ (s.big => s.end > s.headEnd)
+                     /\ (s.reqClose => WithReqClose)}
 
 RECURSIVE SeqsUpTo(_, _)
 SeqsUpTo(S, n) == IF n = 0 THEN {<< >>}
